@@ -53,12 +53,62 @@ Proof.
   apply hf_total. apply Hh. reflexivity.
 Qed.
 
+(* ------------------------------------------------------------------ the integer folds, left to right *)
+Lemma ifold_ltr_total f args : f_ifold_ltr f args <> Panic.
+Proof.
+  unfold f_ifold_ltr. destruct args as [|a0 [|a1 r]]; try discriminate.
+  destruct (atoi (a_val a0)); [apply ifold_loop_total|discriminate].
+Qed.
+Theorem scalar_eval_total f args orc : (f = Hf -> orc <> []) -> scalar_eval f args orc <> Panic.
+Proof. intros H. unfold scalar_eval. destruct (is_ifold f); [apply ifold_ltr_total|apply scalar_total; exact H]. Qed.
+
+(* the unfolding that states the order: operand 0, then operand 1 (type, then zero divisor), then the rest *)
+Lemma ifold_ltr_order f a0 a1 rest :
+  f_ifold_ltr f (a0 :: a1 :: rest) =
+  match atoi (a_val a0) with
+  | None => Ok ErrorNum
+  | Some v0 =>
+      match atoi (a_val a1) with
+      | None => Ok ErrorNum
+      | Some v1 => match iop f v0 v1 with
+                   | Some x => ifold_loop f x rest
+                   | None => Ok ErrorValue
+                   end
+      end
+  end.
+Proof. reflexivity. Qed.
+
+(* agreement with Model/Funcs.v f_ifold (the order before 2e0440e) *)
+Lemma ifold_ltr_agrees f args : existsb const_bad_int args = false -> f_ifold_ltr f args = f_ifold f args.
+Proof.
+  intros H. unfold f_ifold_ltr, f_ifold. destruct args as [|a0 [|a1 r]]; try reflexivity. rewrite H. reflexivity.
+Qed.
+Lemma const_bad_int_bad a : const_bad_int a = true -> atoi (a_val a) = None.
+Proof. unfold const_bad_int. intros H. apply andb_true_iff in H as [_ H]. destruct (atoi (a_val a)); [discriminate|reflexivity]. Qed.
+Lemma ifold_ltr_nodiv f args : f <> Divi -> f <> Modi -> f_ifold_ltr f args = f_ifold f args.
+Proof.
+  intros Hd Hm. destruct (existsb const_bad_int args) eqn:E; [|apply ifold_ltr_agrees; exact E].
+  unfold f_ifold_ltr, f_ifold. destruct args as [|a0 [|a1 r]]; try reflexivity. rewrite E.
+  apply existsb_exists in E as [x [Hin Hx]]. apply const_bad_int_bad in Hx.
+  destruct (atoi (a_val a0)) eqn:E0; [|reflexivity].
+  apply ifold_loop_bad_nodiv; try assumption.
+  destruct Hin as [->|Hin]; [congruence|]. exists x. split; assumption.
+Qed.
+Lemma ifold_ltr_bad_operand f args : (exists a, In a args /\ atoi (a_val a) = None) ->
+  f_ifold_ltr f args = Ok ErrorNum \/ f_ifold_ltr f args = Ok ErrorValue \/ f_ifold_ltr f args = Ok ErrorArgCount.
+Proof.
+  intros [x [Hin Hx]]. unfold f_ifold_ltr. destruct args as [|a0 [|a1 r]]; try (right; right; reflexivity).
+  destruct (atoi (a_val a0)) eqn:E0; [|left; reflexivity].
+  destruct (ifold_loop_bad f (a1 :: r) z) as [H|H]; [|left; exact H|right; left; exact H].
+  destruct Hin as [->|Hin]; [congruence|]. exists x. split; assumption.
+Qed.
+
 (* ------------------------------------------------------------------ eval_name *)
 Theorem eval_name_total n args o r : oracle_ok n o -> eval_name n args o = Some r -> r <> Panic.
 Proof.
   unfold eval_name, oracle_ok. intros Ho. destruct (classify n) as [k|]; [|discriminate].
   destruct k; cbn [eval_class]; intros H; inversion H; subst.
-  - apply scalar_total. intros ->. apply Ho. reflexivity.
+  - apply scalar_eval_total. intros ->. apply Ho. reflexivity.
   - apply repeat_total.
   - apply color_total.
   - apply bar_total.
@@ -290,7 +340,7 @@ Definition markers_stmt : Prop :=
   (forall fixed u v mx ln b m l, static_int mx = Some m -> static_int ln = Some l -> 0 <= l <= bar_cap ->
      atoi (a_val v) = None -> f_bar fixed u [v; mx; ln] b = Ok M_ErrorNum) /\
   (forall f args, (exists a, In a args /\ atoi (a_val a) = None) ->
-     f_ifold f args = Ok M_ErrorNum \/ f_ifold f args = Ok M_ErrorValue \/ f_ifold f args = Ok M_ErrorArgCount) /\
+     f_ifold_ltr f args = Ok M_ErrorNum \/ f_ifold_ltr f args = Ok M_ErrorValue \/ f_ifold_ltr f args = Ok M_ErrorArgCount) /\
   (forall a b s, static_int b = Some s -> 0 < s -> atoi (a_val a) = None -> f_bucket [a; b] = Ok M_ErrorNum) /\
   (forall a lo hi l h, static_int lo = Some l -> static_int hi = Some h -> atoi (a_val a) = None ->
      f_clamp [a; lo; hi] = Ok M_ErrorNum) /\
@@ -305,7 +355,7 @@ Proof.
   split; [exact E|]. split.
   { intros m Hm. rewrite forallb_forall in N, NE. specialize (N m Hm). specialize (NE m Hm).
     split; [destruct (atoi m); [discriminate|reflexivity]|destruct m; [discriminate|discriminate]]. }
-  split; [exact repeat_marker|]. split; [exact bar_marker|]. split; [exact ifold_bad_operand_proof|].
+  split; [exact repeat_marker|]. split; [exact bar_marker|]. split; [exact ifold_ltr_bad_operand|].
   split; [intros a b s; exact (proj2 (proj2 (bucket_markers_proof a b)) s)|].
   split; [exact clamp_marker|]. split; [exact expbucket_marker|]. split; [exact hi_marker|].
   split; [exact select_marker|]. intros s l n. exact (proj2 (substr_markers_proof s l n)).
